@@ -44,12 +44,11 @@ func genWrite(t *rapid.T) WriteCase {
 			c.Tree = append(c.Tree, p)
 		}
 	}
-	switch rapid.IntRange(0, 2).Draw(t, "gitignore") {
-	case 1:
-		g := "bin/\n*.log"
-		c.GitIgnore = &g
-	case 2:
-		g := ""
+	// existing .gitignore shapes: no final newline, empty, blank lines at either end, trailing
+	// blanks on the last line, CRLF — --init may only append to whatever is there
+	gitignores := []string{"bin/\n*.log", "", "\n\n  lead\nbin/\n\n\n", "a\r\nb\r\n", "x \t\n", "node_modules/\n"}
+	if k := rapid.IntRange(0, len(gitignores)).Draw(t, "gitignore"); k > 0 {
+		g := gitignores[k-1]
 		c.GitIgnore = &g
 	}
 	c.DotEnv = rapid.IntRange(0, 3).Draw(t, "dotenv") == 3
@@ -90,6 +89,10 @@ func genWrite(t *rapid.T) WriteCase {
 			}
 		}
 		c.Src = gen.Render(gen.RapidChooser{T: t}, gen.Normalize(stmts))
+	case k == 5:
+		// an existing spokfile without any content is a valid (empty) spokfile
+		c.Class = "valid"
+		c.Src = rapid.SampledFrom([]string{"", "\n", "# only a comment\n"}).Draw(t, "tiny")
 	case k < 9:
 		c.Class = []string{"lexerr", "parseerr", "loaderr"}[rapid.IntRange(0, 2).Draw(t, "invalid")]
 		c.Src = rapid.SampledFrom(invalidSources[c.Class]).Draw(t, "src")
@@ -128,6 +131,7 @@ func execWrite(s *ev.Shard, b *sandbox.Box, c WriteCase) *rp.Fail {
 	}
 	if c.GitIgnore != nil {
 		files[".gitignore"] = *c.GitIgnore
+		files["nested/dir/.gitignore"] = *c.GitIgnore
 	}
 	if c.DotEnv {
 		files[".env"] = "FROM_DOTENV=1\n"
@@ -203,7 +207,7 @@ func execWrite(s *ev.Shard, b *sandbox.Box, c WriteCase) *rp.Fail {
 		if be, ok := before[gi]; ok {
 			if af, ok2 := after[gi]; ok2 && af != be {
 				old := ""
-				if c.GitIgnore != nil && !c.Nested {
+				if c.GitIgnore != nil {
 					old = *c.GitIgnore
 				}
 				now, _ := readFile(filepath.Join(b.Home, gi))
